@@ -5,7 +5,7 @@ from vlib.runner import Group, run_property
 SUM = ["deps.dev/util/semver.compare", "(deps.dev/util/resolve/internal/attr.Set).Compare",
        "(*deps.dev/util/semver.Constraint).Match", "(deps.dev/util/semver.System).Compare"]
 NPM, MAVEN, PYPI = 3, 6, 7
-NREQ = {NPM: 12, MAVEN: 5, PYPI: 6}
+NREQ = {NPM: 12, MAVEN: 7, PYPI: 6}
 
 
 def run(tier):
@@ -39,6 +39,10 @@ def run(tier):
                 for rt in krts:
                     for latest in ([-1, 0, k - 1] if sys == NPM else [-1]):
                         add(k, vt, rt, latest, 1 if rt == krts[0] else 0)
+        if sys == MAVEN:
+            # a union of ranges needs a matching version on both sides of a listed version in the gap
+            for rt in (5, 6):
+                add(3, (8, 8, 8), rt, -1, 0)
         if sys == NPM and tier == "quick":
             # a range that can select prereleases only, over lists with two prereleases and a release
             for vt, latest in [((0, 1, 1), 1), ((0, 1, 1), 2), ((1, 0, 1), 0)]:
